@@ -333,6 +333,17 @@ pub fn judge(case: &MatchCase, line: &str) -> Result<CaseInfo, String> {
         .class_if(!n.is_empty(), "native-match-cross-check")
         .class_if(!mixed && exp.contains('1'), "accepts-everything")
         .class_if(!mixed && !exp.contains('1'), "accepts-nothing");
+    let macro_like = {
+        let mut found = false;
+        let mut c2 = case.clone();
+        for alt in c2.alts.iter_mut() {
+            for p in alt.iter_mut() {
+                visit_names_p(p, &mut |n: &mut String| found |= MACRO_LIKE_NAMES.contains(&n.as_str()) || (n.len() == 2 && (n.starts_with('m') || n.starts_with('l'))));
+            }
+        }
+        found
+    };
+    info = info.class_if(macro_like, "binding-named-like-a-macro-internal(a0,l0,reporter..)");
     info.classes.extend(cs);
     Ok(info)
 }
@@ -455,6 +466,50 @@ pub fn case_strategy() -> impl Strategy<Value = MatchCase> {
                         if !case.accepts(&target) {
                             // the guard (or a binding it needs, now generalised away) is in the way
                             case.guard = None;
+                        }
+                    }
+                    if guard_sel % 4 == 1 {
+                        // bindings named like identifiers the macro generates itself
+                        let mut map: Vec<(String, String)> = vec![];
+                        // with eq!/ne! in the pattern the macro also defines l<n> (operands) and m<position>
+                        let has_cmp = case.alts.iter().flatten().any(|p| has_construct(p, &|q| matches!(q, P::Eq(_) | P::Ne(_))));
+                        let names: Vec<String> = if has_cmp {
+                            // the closure parameter of an eq!/ne! position first, then the operand locals
+                            let mut v: Vec<String> = vec![];
+                            for alt in &case.alts {
+                                for (k, p) in alt.iter().enumerate() {
+                                    if matches!(p, P::Eq(_) | P::Ne(_)) {
+                                        v.push(format!("a{k}"));
+                                    }
+                                }
+                            }
+                            v.extend(["l0".to_string(), "l1".to_string()]);
+                            v.extend((0..case.tys.len()).map(|k| format!("m{k}")));
+                            v.extend(MACRO_LIKE_NAMES.iter().map(|s| s.to_string()));
+                            v.dedup();
+                            let mut seen = std::collections::BTreeSet::new();
+                            v.retain(|x| seen.insert(x.clone()));
+                            v
+                        } else {
+                            MACRO_LIKE_NAMES.iter().map(|s| s.to_string()).collect()
+                        };
+                        let rot = if has_cmp { (guard_sel as usize / 4) % 4 } else { guard_sel as usize / 4 };
+                        let mut rename = |n: &mut String| {
+                            if let Some((_, to)) = map.iter().find(|(from, _)| from == n) {
+                                *n = to.clone();
+                            } else if map.len() < names.len() {
+                                let to = names[(map.len() + rot) % names.len()].clone();
+                                map.push((n.clone(), to.clone()));
+                                *n = to;
+                            }
+                        };
+                        for alt in case.alts.iter_mut() {
+                            for p in alt.iter_mut() {
+                                visit_names_p(p, &mut rename);
+                            }
+                        }
+                        if let Some(g) = case.guard.as_mut() {
+                            visit_names_g(g, &mut rename);
                         }
                     }
                     case
